@@ -151,9 +151,11 @@ def float_spellings(t, tier):
 
 
 def len_spellings(tier):
-    sp = [('3', 3, 'lit'), ('MINLEN', MINLEN, 'expr'), ('MINLEN + 1', MINLEN + 1, 'expr'), ('len_lim()', LIM, 'call')]
+    sp = [('3', 3, 'lit'), ('MINLEN', MINLEN, 'expr'), ('MINLEN + 1', MINLEN + 1, 'expr'), ('len_lim()', LIM, 'call'),
+          # top-level operators that bind weaker than the `+ 16` / `+ 1` a template may append
+          ('MAXLEN >> 1', MAXLEN >> 1, 'expr'), ('MINLEN | 4', MINLEN | 4, 'expr'), ('MINLEN << 1', MINLEN << 1, 'expr'), ('MAXLEN & 14', MAXLEN & 14, 'expr')]
     if tier == 'thorough':
-        sp += [('1_0', 10, 'lit'), ('MAXLEN - 1', MAXLEN - 1, 'expr'), ('(MINLEN * 2)', MINLEN * 2, 'expr'), ('MINLEN << 1', MINLEN << 1, 'expr')]
+        sp += [('1_0', 10, 'lit'), ('MAXLEN - 1', MAXLEN - 1, 'expr'), ('(MINLEN * 2)', MINLEN * 2, 'expr'), ('MINLEN ^ 1', MINLEN ^ 1, 'expr')]
     return sp
 
 
@@ -933,7 +935,7 @@ def build(tier='quick', seed=0):
     for (text, value, form) in len_spellings(tier):
         for kind in ('len_char_min', 'len_char_max'):
             full.append(decl('string', 'String', validators=[V(kind, text, value, form)],
-                             derives=['Debug', 'TryFrom', 'FromStr', 'Display'] + (['Arbitrary'] if form == 'lit' else []),
+                             derives=['Debug', 'TryFrom', 'FromStr', 'Display'] + (['Arbitrary'] if form in ('lit', 'expr') else []),
                              tags=['spelling']))
     skinds = ['not_empty', 'len_char_min', 'len_char_max', 'predicate', 'regex']
 
